@@ -1,6 +1,6 @@
 From Coq Require Import List Arith ZArith Bool.
 Import ListNotations.
-From PF Require Import Arr Net Elev Upscale UpscaleD8 Glue RunC15.
+From PF Require Import Arr Net Elev Upscale UpscaleD8 D8Idx Glue RunC15.
 Local Open Scope Z_scope.
 
 Definition sent_out (n : nat) (l : list nat) : list Z :=
@@ -38,4 +38,12 @@ Definition run_c09 (k : Z) (args : list (list Z)) : list (list Z) :=
        links join 8-neighbouring pixels: the hypotheses of eam_links_d8 *)
     [[zb (check_cross sds (bs (arg 5 args)) (argn 3 args) (argn 4 args));
       zb (forallb (fun t => (length sds <=? sd sds t)%nat || in_d8 t (sd sds t) (argn 3 args)) (seq 0 (length sds)))]]
+  else if k =? 915 then
+    (* core._d8_idx / core._upstream_d8_idx on every cell of a (coarse) raster: args ds, [nrow], [ncol], then the
+       implementation's lists flattened as  idx0, length, neighbours ...  for idx0 = 0 .. min(size, 40) - 1 *)
+    let nrow := argn 1 args in let ncol := argn 2 args in
+    let m := Nat.min (nrow * ncol) 40 in
+    let flat (f : nat -> list nat) := flat_map (fun i => let l := f i in Z.of_nat i :: Z.of_nat (length l) :: map Z.of_nat l) (seq 0 m) in
+    [[zb (RunC15.zlist_eqb (flat (fun i => d8_idx i nrow ncol)) (arg 3 args));
+      zb (RunC15.zlist_eqb (flat (fun i => upstream_d8_idx sds i nrow ncol)) (arg 4 args))]]
   else [[-999]].
